@@ -60,6 +60,27 @@ theorem C04_columns (ops : List Op) (th : Thread) (h : run ops = some th) :
   · rw [inv.lastStack]; cases (logical ops).getLast? <;> rfl
   · rw [inv.lastZero]; cases (logical ops).getLast? <;> simp
 
+/-- **The spec without the merge rule.** On a history without merge calls the logical samples are literally the
+samples of the `add` calls, in call order: there `C04_lossless` says word for word that each entry keeps the time,
+stack, weight and CPU delta it was added with. (The meaning of a merge call — extend the previous zero-CPU sample,
+else append one with the previous stack — is the documented rule of `add_sample_same_stack_zero_cpu`, adopted as
+specification.) -/
+theorem C04_logical_without_merge (ops : List Op) (h : ∀ op ∈ ops, ∃ t s c w, op = .add t s c w) :
+    logical ops = ops.filterMap Op.addRow? := by
+  have gen : ∀ (ops : List Op) (rows : List LRow), (∀ op ∈ ops, ∃ t s c w, op = Op.add t s c w) →
+      logicalFrom rows ops = rows ++ ops.filterMap Op.addRow? := by
+    intro ops
+    induction ops with
+    | nil => intro rows _; simp [logicalFrom]
+    | cons op ops ih =>
+      intro rows h
+      obtain ⟨t, s, c, w, rfl⟩ := h op (by simp)
+      have := ih (rows ++ [⟨t, s, c / 1000, w⟩]) (fun o ho => h o (by simp [ho]))
+      simp only [logicalFrom, List.foldl_cons, logicalStep] at this ⊢
+      rw [this]
+      simp [Op.addRow?]
+  simpa [logical] using gen ops [] h
+
 /-- **No panic, except the stated `i32` overflow.** A history panics in the model iff some merge call would
 make the accumulated weight of a sample leave the `i32` range; in particular the `unwrap`s in
 `modify_last_sample` never fail. -/
@@ -346,6 +367,24 @@ theorem C04_snapshots (procs : List Nat) (nc : Nat) (ops : List POp) (hw : WellA
       rw [he, ho] at hcs
       cases hcs
       exact hspec
+
+/-- non-vacuity at profile level: two threads of one process interleaved, an allocation sample named for thread 1
+(lands in thread 0, between thread 0's `add` and `merge`), a marker, a `ser` in the middle, a `-0.0` counter value -/
+def C04_profileHistory : List POp :=
+  [.sample 0 (.add 10 (some 0) 5000 1), .alloc 1 11 (some 2) 4096 64, .sample 1 (.add 5 none 0 2), .ser,
+   .sample 0 (.merge 12 4), .marker 0, .counter 1 ⟨3, .negZero, 1⟩, .sample 1 (.merge 7 8)]
+
+example : WellAddr 3 2 C04_profileHistory := by
+  intro op hop; revert op hop; decide
+
+example : (∀ i, i < 3 → fits (threadOps i C04_profileHistory) = true) := by decide
+
+example : (snapsFrom (PState.init [0, 0, 1] 2) C04_profileHistory).map (fun snaps => snaps.map fun s =>
+      (s.threads.map (·.samples.weight), s.threads.map (·.samples.stack), s.threads.map (·.allocs.isSome),
+       s.counters.map (·.count)))
+    = some [([[1], [2], []], [[some 0], [none], []], [true, false, false], [[], []]),
+            ([[1, 4], [10], []], [[some 0, some 0], [none], []], [true, false, false], [[], [.negZero]])] := by
+  rfl
 
 /-! ### The defect repaired by `cfcb4a41` -/
 
